@@ -893,6 +893,13 @@ def _tnorm(fn, n, depth=0, hi=None):
         if b is not None and b[0] == "let" and b[-1] == () and b[1].get("init") is not None and b[1]["pat"].k == "p_ident" \
                 and not b[1]["pat"].get("mut") and not b[1]["pat"].get("byref") and pure_expr(b[1]["init"], fn) and not _reads_assigned(fn, b[1]["init"], b[1].order, hi if hi is not None else n.order):
             return _tnorm(fn, b[1]["init"], depth + 1, hi if hi is not None else n.order)
+        # `let (a, b) = (x, y);`: position i of a tuple literal
+        if b is not None and b[0] == "let" and len(b[-1]) == 1 and isinstance(b[-1][0], int) and b[1].get("init") is not None and b[1]["pat"].k == "p_tuple":
+            tup = strip(b[1]["init"])
+            pe = b[1]["pat"]["elems"][b[-1][0]] if b[-1][0] < len(b[1]["pat"]["elems"]) else None
+            if isinstance(tup, Node) and tup.k == "tuple" and b[-1][0] < len(tup["elems"]) and pe is not None and pe.k == "p_ident" and not pe.get("mut") and not pe.get("byref") \
+                    and all(pure_expr(x, fn) for x in tup["elems"]) and not _reads_assigned(fn, tup, b[1].order, hi if hi is not None else n.order):
+                return _tnorm(fn, tup["elems"][b[-1][0]], depth + 1, hi if hi is not None else n.order)
     out = Node({})
     out.parent = n.parent        # copies keep their place in the original tree (scope / origin queries on leaves keep working)
     out.pkey = n.pkey
